@@ -425,6 +425,28 @@ class _Chains:
         self.repo, self.fi, self.val = repo, fi, val_name
         self.ev = ConstEval(repo, fi.module)
 
+    def _helper_chain(self, call: ast.Call, depth) -> Optional[list]:
+        """The call is a one-argument helper of the same module / class whose body is itself a chain of
+        operations on its parameter: follow the value into it (conversion extracted into a helper)."""
+        g, skip = None, 0
+        fn = call.func
+        if isinstance(fn, ast.Name):
+            cands = [h for h in self.repo.funcs.get(fn.id, []) if h.module is self.fi.module and h.cls is None
+                     and h.parent_fn is None]
+            g = cands[0] if len(cands) == 1 else None
+        elif isinstance(fn, ast.Attribute) and isinstance(fn.value, ast.Name) and fn.value.id in ("self", "cls") \
+                and self.fi.cls is not None and fn.attr not in ("serialize", "deserialize", "to_llsd", "from_llsd"):
+            g = _lookup_method(self.repo, self.fi.cls, fn.attr)
+            if g is not None and not any((ap(d) or "").split(".")[-1] == "staticmethod" for d in g.node.decorator_list):
+                skip = 1
+        if g is None or depth > 12:
+            return None
+        params = _first_params(g)[skip:]
+        rets = [r for r in walk(g.node) if isinstance(r, ast.Return)]
+        if len(params) != 1 or len(rets) != 1 or rets[0].value is None or g.node.args.vararg or g.node.args.kwarg:
+            return None
+        return _Chains(self.repo, g, params[0]).chain(rets[0].value, depth + 1)
+
     def chain(self, e, depth=0) -> Optional[list]:
         if depth > 20:
             return None
@@ -454,6 +476,10 @@ class _Chains:
             if ca is None:
                 return None
             kws = tuple(sorted((k.arg or "**", repr(self.ev.ev(k.value))) for k in e.keywords))
+            if len(e.args) == 1 and not e.keywords:
+                body = self._helper_chain(e, depth)
+                if body is not None:
+                    return inner + body
             return inner + [("call", _resolve_callee(self.fi.module, callee), ca + kws)]
         if isinstance(e, ast.Subscript):
             inner = self.chain(e.value, depth + 1)
@@ -467,7 +493,11 @@ class _Chains:
             l, r = self.chain(e.left, depth + 1), self.chain(e.right, depth + 1)
             if l is not None and r is None:
                 v = self.ev.ev(e.right)
-                return l + [("suffix", "", (v,))] if is_const(v) else None
+                if not is_const(v):
+                    return None
+                if l and l[-1][0] == "suffix" and type(l[-1][2][0]) is type(v):
+                    return l[:-1] + [("suffix", "", (l[-1][2][0] + v,))]     # (x + "a") + "b" == x + "ab"
+                return l + [("suffix", "", (v,))]
             if r is not None and l is None:
                 v = self.ev.ev(e.left)
                 return r + [("prefix", "", (v,))] if is_const(v) else None
@@ -689,8 +719,9 @@ def r2(ctx):
                "Type[LookupIntEnum]); int(member) <-> EnumClass(int) is then exact")
     # tz lint (shared hipposa.tzlint) on the schema modules
     sites = tz_sites(repo, (SCHEMA, INV))
-    in_date = [t for t in sites if t[0] is not None and t[0].cls is not None and t[0].cls.name == "SchemaDate"]
-    ctx.floor("C20.R2", "epoch conversions in SchemaDate", len(in_date), 4)
+    # (conversions may live in module-level helpers of legacy_schema.py that SchemaDate calls)
+    in_schema = [t for t in sites if t[0] is not None and t[0].module.rel == SCHEMA]
+    ctx.floor("C20.R2", "epoch conversions in legacy_schema.py", len(in_schema), 3)
     for f, node, kind, ok, why in sites:
         _ob(ctx, "C20.R2", "tz: " + site_key(f, node, kind), ok, ctx.w(f, node) if f is not None else f"{SCHEMA}:{node.lineno}", why)
 
@@ -767,6 +798,14 @@ def _fields_table(ctx, ci: ClassInfo, flavour: Optional[str], renames: Optional[
         fl = _first_params(f)[1]
         table: Optional[List[str]] = None
         tname = None
+        env: Dict[str, Any] = {}
+
+        def cv(node):
+            if isinstance(node, ast.Constant) and isinstance(node.value, str):
+                return node.value
+            if isinstance(node, ast.Name) and isinstance(env.get(node.id), str):
+                return env[node.id]
+            return None
 
         def block(stmts):
             nonlocal table, tname
@@ -794,11 +833,39 @@ def _fields_table(ctx, ci: ClassInfo, flavour: Optional[str], renames: Optional[
                     if r:
                         return True
                     continue
+                if isinstance(st, (ast.For, ast.AsyncFor)) and not st.orelse:
+                    # rename pairs hoisted into a constant table and applied in a loop: unroll it
+                    it = st.iter
+                    rows = _class_const(repo, f.cls, it.attr) if isinstance(it, ast.Attribute) and \
+                        isinstance(it.value, ast.Name) and it.value.id in ("cls", "self", f.cls.name) else None
+                    if rows is None and isinstance(it, ast.Name):
+                        rows = ConstEval(repo, f.module).ev(it)
+                    if isinstance(rows, dict):
+                        rows = None
+                    if isinstance(it, ast.Call) and call_attr(it) == "items" and isinstance(it.func, ast.Attribute):
+                        d = it.func.value
+                        dv = _class_const(repo, f.cls, d.attr) if isinstance(d, ast.Attribute) and \
+                            isinstance(d.value, ast.Name) and d.value.id in ("cls", "self", f.cls.name) else \
+                            ConstEval(repo, f.module).ev(d)
+                        rows = list(dv.items()) if isinstance(dv, dict) and is_const(dv) else None
+                    tgts = [t.id for t in (st.target.elts if isinstance(st.target, ast.Tuple) else [st.target])
+                            if isinstance(t, ast.Name)]
+                    if not (isinstance(rows, (tuple, list)) and is_const(rows) and tgts and
+                            all((isinstance(r, (tuple, list)) and len(r) == len(tgts)) or len(tgts) == 1 for r in rows)):
+                        raise AnalysisError(f"C20.R3: {f.qual}: loop `{norm(st)[:80]}` does not range over a constant "
+                                            f"table of rename rows (extend C20.R3)")
+                    for row in rows:
+                        env.update(zip(tgts, row if len(tgts) > 1 else [row]))
+                        if block(st.body):
+                            return True
+                    for t in tgts:
+                        env.pop(t, None)
+                    continue
                 if isinstance(st, ast.Assign) and len(st.targets) == 1 and isinstance(st.targets[0], ast.Subscript) \
-                        and ap(st.targets[0].value) == tname and isinstance(st.targets[0].slice, ast.Constant) \
+                        and ap(st.targets[0].value) == tname and cv(st.targets[0].slice) is not None \
                         and isinstance(st.value, ast.Call) and ap(st.value.func) == f"{tname}.pop" \
-                        and st.value.args and isinstance(st.value.args[0], ast.Constant):
-                    new, old = st.targets[0].slice.value, st.value.args[0].value
+                        and st.value.args and cv(st.value.args[0]) is not None:
+                    new, old = cv(st.targets[0].slice), cv(st.value.args[0])
                     present = old in table
                     clash = new in table and new != old
                     if renames is not None:
@@ -1864,6 +1931,183 @@ def r9(ctx):
     ctx.floor("C20.R9", "raw segment lookups in LLMeshSerializer.serialize", n_raw, 1)
 
 
+# =========================================================================== R10
+
+def _class_invariant(repo, c: ClassInfo, rd: Optional[FuncInfo], key: str) -> Tuple[bool, str]:
+    """An elided field whose reader restores the constant K is not lossy when the tree itself evidences the class
+    invariant `field == K`: every construction site of the class (ClassName(...) anywhere, cls(...) in its own
+    methods) that passes the field explicitly passes that same constant, and at least one such site exists."""
+    if rd is None:
+        return False, "no sibling from_llsd restores the field"
+    restored = []
+    rev = ConstEval(repo, rd.module)
+    for st in stores(rd.node, into_defs=False):
+        if st.kind == "setitem" and isinstance(st.target.slice, ast.Constant) and st.target.slice.value == key \
+                and st.value is not None:
+            v = rev.ev(st.value)
+            restored.append(v if is_const(v) else None)
+    if not restored or any(v is None for v in restored) or len({repr(v) for v in restored}) != 1:
+        return False, "the reader does not restore one constant"
+    k = restored[0]
+    fields = list(_dc_fields(repo, c))
+    if key not in fields:
+        return False, f"{key!r} is not a dataclass field of {c.name}"
+    idx = fields.index(key)
+    passed = []
+    for mod in repo.modules.values():
+        ev = ConstEval(repo, mod)
+        for call in calls(mod.tree, into_defs=True):
+            fn = call.func
+            is_ctor = False
+            if isinstance(fn, (ast.Name, ast.Attribute)) and (ap(fn) or "").split(".")[-1] == c.name:
+                is_ctor = repo.resolve_class(ap(fn), mod) == c
+            elif isinstance(fn, ast.Name) and fn.id == "cls":
+                owner = next((a for a in ancestors(call) if isinstance(a, ast.ClassDef)), None)
+                is_ctor = owner is c.node
+            if not is_ctor:
+                continue
+            arg = kw(call, key)
+            if arg is None and len(call.args) > idx and not any(isinstance(a, ast.Starred) for a in call.args):
+                arg = call.args[idx]
+            if arg is not None:
+                passed.append((mod, call, ev.ev(arg)))
+    if not passed:
+        return False, f"no construction of {c.name} passes {key!r} explicitly, so nothing evidences the invariant"
+    bad = [f"{mod.rel}:{call.lineno}" for mod, call, v in passed if repr(v) != repr(k)]
+    if bad:
+        return False, f"reader restores {k!r} but the construction(s) at {', '.join(bad)} pass another value"
+    return True, ""
+
+
+def r10(ctx):
+    repo = ctx.repo
+    ctx.rule("C20.R10", "LLSD writer overrides do not lose schema fields: a key popped from the payload is either "
+                        "re-emitted under a name the sibling from_llsd maps back, or (per field, flavour and type) "
+                        "reported as a lossy elision")
+    sbase = repo.cls("SchemaBase", SCHEMA)
+    n = 0
+    for c in sorted(_subclasses(repo, sbase), key=lambda k: k.name):
+        m = c.methods.get("to_llsd")
+        if m is None:
+            continue
+        payload = {st.path for st in stores(m.node, into_defs=False) if st.kind == "assign" and st.value is not None
+                   and isinstance(st.value, ast.Call) and call_attr(st.value) == "to_llsd" and src(st.value.func).startswith("super()")}
+        if not payload:
+            continue
+        params = _first_params(m)[1:]
+        ev = ConstEval(repo, m.module)
+        rd = c.methods.get("from_llsd")
+        for call in calls(m.node):
+            if not (call_attr(call) == "pop" and isinstance(call.func, ast.Attribute) and ap(call.func.value) in payload
+                    and call.args and isinstance(call.args[0], ast.Constant) and isinstance(call.args[0].value, str)):
+                continue
+            pv = ap(call.func.value)
+            key = call.args[0].value
+            flav, types, other = [], None, []
+            for e, pol in facts(call, m.node):
+                if isinstance(e, ast.Compare) and len(e.ops) == 1:
+                    l, r = e.left, e.comparators[0]
+                    op = e.ops[0]
+                    if isinstance(op, (ast.Eq, ast.NotEq)) and any(ap(x) in params for x in (l, r)) and \
+                            any(isinstance(x, ast.Constant) and isinstance(x.value, str) for x in (l, r)):
+                        cst = next(x.value for x in (l, r) if isinstance(x, ast.Constant))
+                        flav.append(cst if isinstance(op, ast.Eq) == pol else f"not {cst}")
+                        continue
+                    sub = next((x for x in (l, r) if isinstance(x, ast.Subscript) and ap(x.value) == pv
+                                and isinstance(x.slice, ast.Constant)), None)
+                    if sub is not None and (pol and isinstance(op, (ast.Eq, ast.In))
+                                            or not pol and isinstance(op, (ast.NotEq, ast.NotIn))):
+                        o = r if sub is l else l
+                        elts = list(o.elts) if isinstance(op, (ast.In, ast.NotIn)) and isinstance(o, (ast.Tuple, ast.List, ast.Set)) else [o]
+                        vals = [ev.ev(x) for x in elts]
+                        if all(isinstance(v, EnumVal) for v in vals):
+                            types = sorted({v.name for v in vals})
+                            tfield = sub.slice.value
+                            continue
+                other.append(norm(e) if pol else f"not ({norm(e)})")
+            fl = ",".join(flav) or "any flavour"
+            st = enclosing_stmt(call)
+            n += 1
+            rekey = None
+            if isinstance(st, ast.Assign) and st.value is call and len(st.targets) == 1:
+                t0 = st.targets[0]
+                if isinstance(t0, ast.Subscript) and ap(t0.value) == pv and isinstance(t0.slice, ast.Constant):
+                    rekey = t0.slice.value
+                elif isinstance(t0, ast.Name):      # popped into a local that is stored back under another key
+                    for s2 in stores(m.node, into_defs=False):
+                        if s2.kind == "setitem" and s2.path == pv and ap(s2.value) == t0.id \
+                                and isinstance(s2.target.slice, ast.Constant):
+                            rekey = s2.target.slice.value
+            if rekey is not None:
+                new = rekey
+                back = False
+                if rd is not None:
+                    for s2 in stores(rd.node, into_defs=False):
+                        if s2.kind == "setitem" and isinstance(s2.target.slice, ast.Constant) and s2.target.slice.value == key \
+                                and isinstance(s2.value, ast.Call) and call_attr(s2.value) == "pop" and s2.value.args \
+                                and isinstance(s2.value.args[0], ast.Constant) and s2.value.args[0].value == new:
+                            back = True
+                _ob(ctx, "C20.R10", f"{c.name}.to_llsd[{fl}] re-keys {key!r} as {new!r} and from_llsd maps it back", back,
+                    ctx.w(m, call), f"{c.name}.from_llsd has no `[{key!r}] = <dict>.pop({new!r})`: the value is lost on parse")
+                continue
+            inv_ok, inv_why = _class_invariant(repo, c, rd, key)
+            for t in (types or [None]):
+                inst = f"{c.name}.to_llsd[{fl}] keeps {key!r}" + (f" when {tfield} is {t}" if t else "") + \
+                    (f" [{'; '.join(other)}]" if other else "")
+                _ob(ctx, "C20.R10", inst, inv_ok, ctx.w(m, call),
+                    f"the writer drops {key!r} from the payload" + (f" of {t} nodes" if t else "") +
+                    "; the sibling reader can only put a constant back, so a node whose field differs from that "
+                    f"constant does not survive to_llsd -> from_llsd ({inv_why})")
+    ctx.stats["C20.R10.payload pops"] = n
+
+
+# =========================================================================== R11
+
+def r11(ctx):
+    repo = ctx.repo
+    ctx.rule("C20.R11", "mesh SegmentSerializer: the reader unpacks a templated binary field whenever the writer packs "
+                        "one - its unpack condition is template membership only, never the wire value")
+    wr = repo.fn("SegmentSerializer.serialize", MESH)
+    rd = repo.fn("SegmentSerializer.deserialize", MESH)
+
+    def spec_calls(fns, opname):
+        out = []
+        for f in fns:
+            for c in find_calls(f.node, opname):
+                for a in c.args:
+                    if isinstance(a, ast.Subscript) and (ap(a.value) or "").startswith("self."):
+                        out.append((f, c, ap(a.value), ap(a.slice)))
+        return out
+    ws = spec_calls(class_methods_reachable(repo, wr), "write")
+    rs = spec_calls(class_methods_reachable(repo, rd), "read")
+    ctx.require(len(ws) == 1 and len(rs) == 1, f"C20.R11: expected one templated write and one templated read in "
+                                               f"SegmentSerializer, found {len(ws)}/{len(rs)} (re-read)")
+    (wf, wc, wtab, _), (rf, rc, rtab, _) = ws[0], rs[0]
+    _ob(ctx, "C20.R11", "SegmentSerializer: reader and writer index the same template table", wtab == rtab, ctx.w(rf, rc),
+        f"writer uses {wtab}, reader {rtab}")
+
+    def classify(f, c, tab):
+        member, extra = False, []
+        for e, pol in facts(c, f.node):
+            if isinstance(e, ast.Compare) and len(e.ops) == 1 and isinstance(e.ops[0], (ast.In, ast.NotIn)) \
+                    and ap(e.comparators[0]) == tab:
+                if isinstance(e.ops[0], ast.In) == pol:
+                    member = True
+                    continue
+            if isinstance(e, ast.Constant) or (isinstance(e, ast.Call) and ap(e.func) == "isinstance"):
+                continue        # constant, or type guard on the model / wire value: not value dependent
+            extra.append(norm(e) if pol else f"not ({norm(e)})")
+        return member, extra
+    wm, _ = classify(wf, wc, wtab)
+    rm, rextra = classify(rf, rc, rtab)
+    _ob(ctx, "C20.R11", "SegmentSerializer: packing and unpacking are both keyed on template membership", wm and rm,
+        ctx.w(rf, rc), f"membership test present: writer {wm}, reader {rm}")
+    _ob(ctx, "C20.R11", "SegmentSerializer: reader unpacks every templated field regardless of its wire value", not rextra,
+        ctx.w(rf, rc),
+        f"the reader additionally requires {rextra}: a templated field the writer packed to a value failing that "
+        f"(e.g. an empty list, packed to zero bytes) is passed through as raw bytes instead of being unpacked")
+
+
 def run(ctx):
     r1(ctx)
     r2(ctx)
@@ -1874,3 +2118,5 @@ def run(ctx):
     r7(ctx)
     r8(ctx)
     r9(ctx)
+    r10(ctx)
+    r11(ctx)
